@@ -163,9 +163,14 @@ pub fn interval(args: &[String]) {
                 }
                 // (the landing step sets the time to xend itself, so no sample may lie beyond xend, not even by a rounding error)
                 for t in &sol.t { if (t - c.xend) * dirn > 0.0 { fail("c03-overshoot", format!("sample time {} lies beyond xend = {}", t, c.xend)); } }
-                let slack = 1e-13 * (1.0 + lo.abs().max(hi.abs()));
+                // "never evaluated at a time outside the closed interval": exact, not to rounding
+                let slack = 0.0;
                 for t in p.times.borrow().iter() {
-                    if *t < lo - slack || *t > hi + slack { fail("c03-eval-outside", format!("right-hand side / Jacobian / event function evaluated at t = {} outside [{}, {}]", t, lo, hi)); break; }
+                    if *t < lo - slack || *t > hi + slack {
+                        // `hinit` probes x0 + h with h clipped to the span: x0 + (xend − x0) can miss xend by an ulp (a recorded finding of its own)
+                        let key = if *t == c.x0 + (c.xend - c.x0) { "c03-hinit-probe-beyond-xend" } else { "c03-eval-outside" };
+                        fail(key, format!("right-hand side / Jacobian / event function evaluated at t = {} outside [{}, {}]", t, lo, hi)); break;
+                    }
                 }
                 let terminal_fired = with_event && p.events[0].terminal.is_some() && !sol.t_events[0].is_empty();
                 match sol.status {
@@ -245,6 +250,33 @@ pub fn interval(args: &[String]) {
             }
         }
         out("iv", 100000 + case, &c, "stiff", key, &why, &extra);
+    }
+    // C03, evaluation times: a vanishing right-hand side makes `hinit` propose 1e-6, clipped to the span when that is shorter;
+    // on spans that straddle zero `x0 + (xend − x0)` can lie one ulp beyond xend
+    {
+        struct Zero { times: std::cell::RefCell<Vec<f64>> }
+        impl IVP for Zero { fn ode(&self, x: f64, _y: &[f64], d: &mut [f64]) { self.times.borrow_mut().push(x); d[0] = 0.0; } }
+        let mut k = 0;
+        for method in ALL_METHODS {
+            for (x0, xend) in [(-1e-8, 2e-8), (1e-8, -2e-8), (-3e-9, 1e-10), (-1e-7, 7e-9), (2e-8, -1e-9), (-0.7, 0.05), (0.3, -0.011)] {
+                let f = Zero { times: Vec::new().into() };
+                let o = Options::builder().method(method).build();
+                let (lo, hi) = if x0 < xend { (x0, xend) } else { (xend, x0) };
+                let (mut why, mut key, mut extra) = (String::new(), "", String::new());
+                match catch_unwind(AssertUnwindSafe(|| solve_ivp(&f, x0, xend, &[1.0], o))) {
+                    Ok(Ok(sol)) => {
+                        extra = format!("\"status\":\"{:?}\",", sol.status);
+                        if let Some(t) = f.times.borrow().iter().find(|t| **t < lo || **t > hi) { key = if *t == x0 + (xend - x0) { "c03-hinit-probe-beyond-xend" } else { "c03-eval-outside" }; why = format!("y' = 0 on [{:e}, {:e}]: right-hand side evaluated at t = {:e}, outside the interval", x0, xend, t); }
+                        else if sol.status == Status::Success && sol.t.last() != Some(&xend) { key = "c03-success-not-reached"; why = format!("Success but the last sample is {:?}", sol.t.last()); }
+                    }
+                    Ok(Err(_)) => { extra = "\"status\":\"Err\",".into(); }
+                    Err(_) => { key = "c04-hang-or-panic"; why = "solve_ivp panicked".into(); }
+                }
+                println!("{{\"kind\":\"iv\",\"case\":{},\"problem\":\"y'=0\",\"method\":\"{}\",\"x0\":{:e},\"xend\":{:e},\"branch\":\"hinit-probe\",\"finding_key\":\"{}\",{}\"ok\":{},\"why\":{:?}}}",
+                    540000 + k, method_name(method), x0, xend, key, extra, why.is_empty(), why);
+                k += 1;
+            }
+        }
     }
     // C11 through solve_ivp: a max_step below RK4's default step (span / 100), no first_step, both directions
     {
